@@ -115,6 +115,13 @@ def gen_bam(rng, tier):
     c = rdbam.gen_bam_case(rng, nrec_max=7 if tier == 'quick' else 12)
     n = len(c['recs'])
     c['rd'] = rng.choice([1, 1, 2, 3])
+    if rng.random() < 0.5:
+        # a block cache under the BAM reader (rd = 1: the read-ahead reader with a cache is the recorded C03 finding),
+        # and chunks that are set and abandoned without a read in between
+        c['rd'] = 1
+        c['cache'] = rng.choice(['lru', 'random', 'lru'])
+        c['cachen'] = rng.randrange(2, 5)
+        c['abandon'] = rng.random() < 0.7
     c['pairs'] = [[i, j] for i in range(n) for j in range(i, n)]
     if tier == 'quick' and len(c['pairs']) > 12:
         c['pairs'] = rng.sample(c['pairs'], 12)
